@@ -90,6 +90,11 @@ pub fn families() -> Vec<Family> {
         Family { name: "colonless-lines", entry: RespCfg, cfg: C_SPACES_AFTER_NAME | C_IGNORE_RESP, gen: |n| rep(RS, b"name junk\r\n", n, b"\r\n") },
         Family { name: "colonless-lines-then-header", entry: RespCfg, cfg: C_SPACES_AFTER_NAME | C_IGNORE_RESP, gen: |n| rep(RS, b"name  junk\r\n", n, b"A : b\r\n\r\n") },
         Family { name: "colonless-lines-request", entry: ReqCfg, cfg: C_IGNORE_REQ | C_SPACE_BEFORE_FIRST, gen: |n| rep(RQ, b"name junk\n", n, b"\n") },
+        Family { name: "ignored-lf-lines-after-crlf-header", entry: RespCfg, cfg: C_IGNORE_RESP, gen: |n| rep(b"HTTP/1.1 200 OK\r\nA: b\r\n", b"bad line\n", n, b"\n") },
+        Family { name: "ignored-crlf-lines-after-lf-header", entry: ReqCfg, cfg: C_IGNORE_REQ, gen: |n| rep(b"GET / HTTP/1.1\nA: b\n", b"bad line\r\n", n, b"\r\n") },
+        Family { name: "ignored-long-line-unterminated", entry: RespCfg, cfg: C_IGNORE_RESP, gen: |n| rep(b"HTTP/1.1 200 OK\r\nA: b\r\n(", b"x", n, b"") },
+        Family { name: "long-value-unterminated", entry: ReqCfg, cfg: 0, gen: |n| rep(b"GET / HTTP/1.1\r\nA: ", b"v ", n, b"") },
+        Family { name: "folded-value-unterminated", entry: RespCfg, cfg: C_FOLDING, gen: |n| rep(b"HTTP/1.1 200 OK\r\nA: b\r\n ", b"v\t", n, b"") },
     ];
     with_option_twins(base)
 }
@@ -127,6 +132,25 @@ pub fn variants(full: &[u8]) -> Vec<(&'static str, Vec<u8>)> {
         let mut e = full.to_vec();
         e.extend_from_slice(b"trailing body bytes \x00\r\n\r\n");
         v.push(("with-body", e));
+        // the other spellings of the two final line ends (a pre-scan for the end of the head has
+        // to know all four)
+        if full.ends_with(b"\r\n\r\n") {
+            let stem = &full[..full.len() - 4];
+            for (name, end) in [("end-lf-crlf", &b"\n\r\n"[..]), ("end-crlf-lf", b"\r\n\n"), ("end-lf-lf", b"\n\n")] {
+                let mut e = stem.to_vec();
+                e.extend_from_slice(end);
+                e.extend_from_slice(b"body without another empty line");
+                v.push((name, e));
+            }
+        } else if full.ends_with(b"\n\n") {
+            let stem = &full[..full.len() - 2];
+            for (name, end) in [("end-lf-crlf", &b"\n\r\n"[..]), ("end-crlf-lf", b"\r\n\n"), ("end-crlf-crlf", b"\r\n\r\n")] {
+                let mut e = stem.to_vec();
+                e.extend_from_slice(end);
+                e.extend_from_slice(b"body without another empty line");
+                v.push((name, e));
+            }
+        }
     }
     v
 }
@@ -198,8 +222,8 @@ pub fn add_families(p: &mut Plan, q: bool) {
             }));
         }
     }
-    p.phases.push(Phase { label: format!("S8: {} adversarial size families × sizes {:?} × 5 variants × capacities 0/1/enough", n, sizes), backend: Backend::Native, tasks });
-    p.bounds.push(format!("S8: {} generators × sizes {:?} bytes × variants complete/truncated-1/truncated-3/error-at-end/with-body × capacities 0, 1, enough", n, sizes));
+    p.phases.push(Phase { label: format!("S8: {} adversarial size families × sizes {:?} × up to 8 variants × capacities 0/1/enough", n, sizes), backend: Backend::Native, tasks });
+    p.bounds.push(format!("S8: {} generators × sizes {:?} bytes × variants complete/truncated-1/truncated-3/error-at-end/with-body and the three other spellings of the two final line ends × capacities 0, 1, enough", n, sizes));
 }
 
 fn ops(c: &httparse::_verif::counters::Counters) -> u64 {
